@@ -73,6 +73,29 @@ func init() {
 		Scenarios: func(tier string) []*engine.Scenario {
 			return []*engine.Scenario{LifeScenario(baseLife("C13", tier, props("C13")))}
 		}})
+	for _, id := range []string{"C04", "C06", "C07"} {
+		id := id
+		register(&Check{ID: id, Level: "model_checking", Workers: 16,
+			Rule:        "explicit-state DFS (iterative deepening) over the lifecycle alphabet on flat snapshots of the real application; escrow ledgers are recomputed from the records in every state and every transition's bank flows are compared with the change of the records; non-trivial = distinct states holding at least one completed shard",
+			Assumptions: lifeAssumptions,
+			Scenarios: func(tier string) []*engine.Scenario {
+				return []*engine.Scenario{LifeScenario(baseLife(id, tier, props(id)))}
+			}})
+	}
+	for _, id := range []string{"C05", "C11", "C12", "C16"} {
+		id := id
+		register(&Check{ID: id, Level: "model_checking", Workers: 16,
+			Rule:        "explicit-state DFS (iterative deepening) over (a) the lifecycle alphabet and (b) the fault-sequence scenarios (every assigned provider completes or stays silent at every timeout interval) on flat snapshots of the real application; step and state clauses of the property are evaluated on every transition/state; non-trivial = distinct states holding at least one completed shard",
+			Assumptions: lifeAssumptions,
+			Scenarios: func(tier string) []*engine.Scenario {
+				o := baseLife(id, tier, props(id))
+				if id == "C16" || id == "C05" {
+					o.Update, o.ForcePush = true, id == "C16"
+					o.Migrate, o.Claim = false, false
+				}
+				return append([]*engine.Scenario{LifeScenario(o)}, TimeoutFamily(id, tier, props(id))...)
+			}})
+	}
 	register(&Check{ID: "C14", Level: "model_checking", Workers: 16,
 		Rule:        "explicit-state DFS (iterative deepening) over the lifecycle alphabet on flat snapshots of the real application; every distinct reachable state is checked against the aggregate-accounting equalities; non-trivial = distinct states holding at least one completed shard",
 		Assumptions: lifeAssumptions,
